@@ -9,7 +9,7 @@ CYCLES = {"imp": 2, "imm": 2, "zp": 3, "abs": 4, "zpx": 4}
 
 
 class Machine:
-    def __init__(self, body, on_assert, max_steps=20000):
+    def __init__(self, body, on_assert, max_steps=20000, base=0xC000, keep_trace=True):
         self.body = body
         self.labels = {it[1]: i for i, it in enumerate(body) if it[0] == "label"}
         self.a = self.x = self.y = 0
@@ -20,8 +20,23 @@ class Machine:
         self.steps = 0
         self.max_steps = max_steps
         self.on_assert = on_assert
-        self.trace = []           # (index in body, a, x, y, n, v, z, c) before each executed instruction
+        self.keep_trace = keep_trace
+        self.trace = []           # (index in body, a, x, y, n, v, z, c, cycles, depth) before each executed instruction
         self.cycles = 0
+        self.depth = 0
+        # addresses: sizes follow from the addressing forms
+        self.addr = {}
+        a = base
+        for i, it in enumerate(body):
+            self.addr[i] = a
+            if it[0] == "ins":
+                a += {"imp": 1, "imm": 2, "zp": 2, "zpx": 2, "abs": 3, "rel": 2, "jmp": 3, "jsr": 3}[it[2]]
+        self.addr[len(body)] = a
+
+    def next_ins(self, i):
+        while i < len(self.body) and self.body[i][0] != "ins":
+            i += 1
+        return i
 
     def rd(self, addr):
         return self.mem.get(addr & 0xFFFF, 0)
@@ -68,7 +83,8 @@ class Machine:
             if self.steps > self.max_steps:
                 return ("steps", None)
             _, mn, mode, op = it
-            self.trace.append((self.pc, self.a, self.x, self.y, self.n, self.v, self.z, self.c, self.cycles))
+            if self.keep_trace:
+                self.trace.append((self.pc, self.a, self.x, self.y, self.n, self.v, self.z, self.c, self.cycles, self.depth))
             if mn == "brk":
                 return ("brk", None)
             self.step(mn, mode, op)
@@ -150,6 +166,9 @@ class Machine:
             if cond:
                 nxt = self.labels[op]
                 cyc = 3
+                # a taken branch to another page costs one more cycle
+                if (self.addr[self.pc + 1] & 0xFF00) != (self.addr[self.next_ins(nxt)] & 0xFF00):
+                    cyc = 4
         elif mn == "jmp":
             nxt = self.labels[op]
             cyc = 3
@@ -157,10 +176,12 @@ class Machine:
             self.stack.append(("ret", self.pc + 1))
             nxt = self.labels[op]
             cyc = 6
+            self.depth += 1
         elif mn == "rts":
             k, v = self.stack.pop()
             nxt = v
             cyc = 6
+            self.depth -= 1
         else:
             raise ValueError(mn)
         self.cycles += cyc
